@@ -69,7 +69,7 @@ func c03Probe(w *mintops.W) {
 	}
 }
 
-func c03Specs(quick bool) []*bfs.Spec {
+func c03OwnSpecs(quick bool) []*bfs.Spec {
 	d := 4
 	if !quick {
 		d = 6
@@ -83,7 +83,7 @@ func c03Specs(quick bool) []*bfs.Spec {
 var c03All = specMap(c03Specs(true), c03Specs(false))
 
 func init() {
-	register(&Prop{ID: "C03", Level: "model_checking", QuickBudget: 100 * time.Second, ThoroughBudget: 25 * time.Minute,
+	register(&Prop{ID: "C03", Level: "model_checking", QuickBudget: 300 * time.Second, ThoroughBudget: 25 * time.Minute,
 		Run: func(c *rt.Ctx) {
 			c.Cov["rule"] = "E3: every history up to the depth bound over {mint quote (plain, NUT-20 locked), settle (user pays), poll, mint x {fresh exact, same outputs again, over amount, without / with foreign NUT-20 signature}, delivery of the backend's asynchronous 'invoice settled' notification to the mint's watcher goroutine, internal melt of the quote's own invoice, restart}, at most 2 quotes; the Lightning model is the truth about payments; in every state every quote is asked for fresh signatures once more (must refuse unless paid and not yet issued)"
 			runSpecs(c, c03Specs(c.Quick()))
@@ -103,4 +103,9 @@ func init() {
 			return bfs.ReplayFile("C03", c03All, p)
 		},
 	})
+}
+
+// c03Specs: the property's own searches plus the shallow search over the union of all mint-level menus (seqcommon.go).
+func c03Specs(quick bool) []*bfs.Spec {
+	return append(c03OwnSpecs(quick), unionSpecs("C03", c03Probe, quick)...)
 }
